@@ -7,6 +7,7 @@ package part
 // JSON / YAML round trip.
 
 import (
+	"reflect"
 	"encoding/json"
 	"fmt"
 	"sort"
@@ -287,7 +288,73 @@ func TestVerifProbe_SetAndRoundTrip(t *testing.T) {
 		if err != nil || yaml.Unmarshal(ym, &m3) != nil || !m.SlowEqual(m3) {
 			t.Fatalf("VERIF-FAIL: roundtrip: map YAML %s", ym)
 		}
+		// values with slices, maps, pointers and omitted fields ("any value"): decoding must not
+		// let one entry share storage with another
+		var mr Map[string, verifRTVal]
+		want := map[string]verifRTVal{}
+		for i, k := range mapKeys {
+			if a&(1<<i) != 0 {
+				v := verifMakeRTVal(i)
+				mr = mr.Set(k, v)
+				want[k] = v
+			}
+		}
+		jr, err := json.Marshal(mr)
+		var mr2 Map[string, verifRTVal]
+		if err != nil || json.Unmarshal(jr, &mr2) != nil {
+			t.Fatalf("VERIF-FAIL: roundtrip: struct map JSON %s", jr)
+		}
+		yr, err := yaml.Marshal(mr)
+		var mr3 Map[string, verifRTVal]
+		if err != nil || yaml.Unmarshal(yr, &mr3) != nil {
+			t.Fatalf("VERIF-FAIL: roundtrip: struct map YAML %s", yr)
+		}
+		for name, got := range map[string]Map[string, verifRTVal]{"JSON": mr2, "YAML": mr3} {
+			if got.Len() != len(want) {
+				t.Fatalf("VERIF-FAIL: roundtrip: struct map %s: %d entries, want %d", name, got.Len(), len(want))
+			}
+			for k, w := range want {
+				g, ok := got.Get(k)
+				if !ok || !reflect.DeepEqual(verifNormRT(g), verifNormRT(w)) {
+					t.Fatalf("VERIF-FAIL: roundtrip: struct map %s: key %q decoded as %+v, encoded %+v (document %s)", name, k, g, w, jr)
+				}
+			}
+		}
 		cases++
 	}
 	fmt.Printf("VERIF-CASES=%d\n", cases)
+}
+
+// verifRTVal is a value type whose decoding goes wrong if the decoder reuses storage.
+type verifRTVal struct {
+	L []int          `json:"l,omitempty" yaml:"l,omitempty"`
+	M map[string]int `json:"m,omitempty" yaml:"m,omitempty"`
+	P *int           `json:"p,omitempty" yaml:"p,omitempty"`
+	S string         `json:"s,omitempty" yaml:"s,omitempty"`
+}
+
+func verifMakeRTVal(i int) verifRTVal {
+	var v verifRTVal
+	// lengths shrink with i, some fields are present only for some entries
+	for j := 0; j < 3-i%3; j++ {
+		v.L = append(v.L, 10*i+j)
+	}
+	if i%2 == 0 {
+		v.M = map[string]int{fmt.Sprintf("k%d", i): i}
+		v.S = fmt.Sprintf("s%d", i)
+	} else {
+		x := i
+		v.P = &x
+	}
+	return v
+}
+
+func verifNormRT(v verifRTVal) verifRTVal {
+	if len(v.L) == 0 {
+		v.L = nil
+	}
+	if len(v.M) == 0 {
+		v.M = nil
+	}
+	return v
 }
